@@ -61,7 +61,7 @@ def run_case(world, prop, monitor, extra_monitors=(), key_fn=None, nontrivial_fn
         sub = {"variant": name}
         if only is not None and only != sub:
             continue
-        vsec += ex.clock.t - 1000.0
+        vsec += ex.clock.t - ex.clock.t0
         bump(name + "." + ex.outcome.split("@")[0])
         bump("trials", len(ex.trials))
         nfired = len(ex.problem.fired) + len([f for f in ex.lin_fired if f[0] != "obs_solve"])
